@@ -453,7 +453,7 @@ impl TargetActorHelper {
 //@pre
         broadcast use group_keys;
         broadcast use vstd::std_specs::hash::group_hash_axioms;
-//@after 0 `let dependencies = target_metadata.dependencies.clone();`
+//@after 0 `let dependencies =`
         proof { assert(dependencies@ =~= target_metadata.dependencies@); }
 //@end
 
@@ -1132,7 +1132,7 @@ impl AggregateTargetActor {
                     assert(tr.unreq.contains((requester, kind)));
                 }
             }
-//@before 0 `let removed = self.helper.unavailable_dependencies.get_mut(&kind).unwrap().remove(&target_id);`
+//@before 0 `let removed =`
                             let ghost un_b0 = self.helper.un(ExecutionKind::Build);
                             let ghost un_s0 = self.helper.un(ExecutionKind::Service);
                             let ghost tr_pre = *tr;
@@ -1152,7 +1152,7 @@ impl AggregateTargetActor {
                                 }
                                 assert(tr.last_b == tr_pre.last_b && tr.last_s == tr_pre.last_s);
                             }
-//@before 0 `let inserted = self.helper.unavailable_dependencies.get_mut(&kind).unwrap().insert(target_id.clone());`
+//@before 0 `let inserted =`
                             let ghost un_b1 = self.helper.un(ExecutionKind::Build);
                             let ghost un_s1 = self.helper.un(ExecutionKind::Service);
                             let ghost tr_pre1 = *tr;
